@@ -198,3 +198,12 @@ m("c17-per-thread-scratch-sm-reset-each-call", "C17", 0, [("src/THDM/THDM_c.cpp"
    "gm2calc::SM convert_to_SM(const ::gm2calc_SM* sm)\n{\n   gm2calc::SM s;\n",
    "gm2calc::SM convert_to_SM(const ::gm2calc_SM* sm)\n{\n   static thread_local gm2calc::SM scratch;\n   scratch = gm2calc::SM(); // start from the defaults every time\n   gm2calc::SM& s = scratch;\n")],
   "thread_local scratch object that is reset to the defaults on every call: property holds")
+
+# ----------------------------------------------------------------------------- C19: memo with a coarse key (needs near-duplicate points)
+m("c19-thread-local-memo-coarse-key", "C19", 1, [("src/gm2_mf.cpp",
+   "   boost::uintmax_t it = max_iterations;\n",
+   "   boost::uintmax_t it = max_iterations;\n   static thread_local float last_alpha = 0, last_scale = 0;\n   static thread_local double last_result = 0;\n"
+   "   if (static_cast<float>(alpha) == last_alpha && static_cast<float>(scale) == last_scale) { return last_result; }\n"),
+  ("src/gm2_mf.cpp", "   return lambda_qcd;\n}\n\n/**\n * Calculates \\f$F_b",
+   "   last_alpha = static_cast<float>(alpha); last_scale = static_cast<float>(scale); last_result = lambda_qcd;\n   return lambda_qcd;\n}\n\n/**\n * Calculates \\f$F_b")],
+  "thread_local memo (no race) whose key is truncated to float: a point whose alpha_s differs by less than 1e-7 from the previous one in the thread gets the neighbour's Lambda_QCD")
